@@ -75,12 +75,47 @@ func (st *state) loader(load, fetch, clear *core.Fn) {
 		if e == nil {
 			return false
 		}
-		if d, ok := tt.SingleDef(info, loadView.Body, tt.Resolve(info, loadView.Body, e, 6)); ok && d.Index == 0 {
+		r := tt.Resolve(info, loadView.Body, e, 6)
+		if d, ok := tt.SingleDef(info, loadView.Body, r); ok && d.Index == 0 {
 			if call, ok := ast.Unparen(d.Rhs).(*ast.CallExpr); ok && core.IsFunc(core.CalleeFunc(info, call), pkgUtils, "", "ParseKeyspace") {
 				return true
 			}
 		}
-		return false
+		// several definitions (the exits of an inlined helper): each is the result of ParseKeyspace, or
+		// nil handed back together with an error value (`mp, err = nil, err1`)
+		o := localObj(info, r)
+		if o == nil {
+			return false
+		}
+		parsed := false
+		for _, d := range tt.DefsOf(info, loadView.Body, o) {
+			if _, isDecl := d.Stmt.(*ast.ValueSpec); isDecl && d.Rhs == nil {
+				continue
+			}
+			if d.Rhs == nil || d.Range != nil {
+				return false
+			}
+			if call, ok := ast.Unparen(d.Rhs).(*ast.CallExpr); ok && d.Index == 0 && core.IsFunc(core.CalleeFunc(info, call), pkgUtils, "", "ParseKeyspace") {
+				parsed = true
+				continue
+			}
+			as, isAs := d.Stmt.(*ast.AssignStmt)
+			if !isAs || d.Index != -1 || !core.IsNil(info, d.Rhs) || len(as.Lhs) != len(as.Rhs) {
+				return false
+			}
+			withErr := false
+			for _, rhs := range as.Rhs {
+				if id, isId := ast.Unparen(rhs).(*ast.Ident); isId && !core.IsNil(info, id) {
+					if v, isVar := core.ObjOf(info, id).(*types.Var); isVar && cfgq.IsErrorType(v.Type()) {
+						withErr = true
+					}
+				}
+			}
+			if !withErr {
+				return false
+			}
+		}
+		return parsed
 	}
 	mpExpr := lift(loop.X)
 	okList := fromKeyspace(mpExpr)
@@ -192,6 +227,52 @@ func (st *state) loader(load, fetch, clear *core.Fn) {
 		}
 		return car{}
 	}
+	// a variable that only lives inside one iteration (the parameter binding of an inlined method,
+	// a renamed local) is another name of the fetched value, not the record
+	perIteration := func(o types.Object) bool {
+		defs := tt.DefsOf(info, body, o)
+		if len(defs) == 0 {
+			return false
+		}
+		for _, d := range defs {
+			st, isStmt := d.Stmt.(ast.Stmt)
+			if !isStmt || x.LoopOf(st) != ast.Stmt(loop) {
+				return false
+			}
+		}
+		return true
+	}
+	alias := map[types.Object]int{}
+	for k, o := range []types.Object{fr[0], fr[1], fr[2], dbKey} {
+		if o != nil {
+			alias[o] = k
+		}
+	}
+	for changed := true; changed; {
+		changed = false
+		core.Inspect(loop.Body, func(n ast.Node) bool {
+			as, ok := n.(*ast.AssignStmt)
+			if !ok || len(as.Lhs) != len(as.Rhs) {
+				return true
+			}
+			for i := range as.Lhs {
+				l, r := localObj(info, as.Lhs[i]), localObj(info, as.Rhs[i])
+				if l == nil || r == nil || l == r {
+					continue
+				}
+				if _, isId := ast.Unparen(as.Rhs[i]).(*ast.Ident); !isId {
+					continue
+				}
+				if k, isAlias := alias[r]; isAlias {
+					if _, known := alias[l]; !known && perIteration(l) && len(tt.DefsOf(info, body, l)) == 1 {
+						alias[l] = k
+						changed = true
+					}
+				}
+			}
+			return true
+		})
+	}
 	// the comparison fetched-offset REL newest
 	var cmp *ast.BinaryExpr
 	var newest car
@@ -203,10 +284,14 @@ func (st *state) loader(load, fetch, clear *core.Fn) {
 			return true
 		}
 		l, r := carOf(be.X), carOf(be.Y)
+		isOffset := func(cr car) bool { // the fetched offset or another name of it inside the iteration
+			k, ok := alias[cr.obj]
+			return cr.obj != nil && cr.field == "" && ok && k == 1
+		}
 		switch {
-		case l.obj == fr[1] && l.field == "" && r.obj != nil && r.obj != fr[1]:
+		case isOffset(l) && r.obj != nil && !isOffset(r):
 			cmp, newest, rel = be, r, be.Op
-		case r.obj == fr[1] && r.field == "" && l.obj != nil && l.obj != fr[1]:
+		case isOffset(r) && l.obj != nil && !isOffset(l):
 			cmp, newest, rel = be, l, mirror[be.Op]
 		}
 		return true
@@ -232,8 +317,13 @@ func (st *state) loader(load, fetch, clear *core.Fn) {
 		for i := range as.Lhs { // also a tuple assignment `a, b, c, d = w, x, y, z`
 			note := func(l car, rhs ast.Expr) {
 				r := localObj(info, rhs)
+				if l.obj != nil && l.field == "" {
+					if _, isAlias := alias[l.obj]; isAlias {
+						return
+					}
+				}
 				for k := range src {
-					if r != nil && r == src[k] && l.obj != nil && (k != 1 || l == newest) {
+					if ak, isAlias := alias[r]; r != nil && isAlias && ak == k && l.obj != nil && (k != 1 || l == newest) {
 						recCar[k], recAssign[k] = l, as
 					}
 				}
@@ -299,9 +389,19 @@ func (st *state) loader(load, fetch, clear *core.Fn) {
 							if id, ok := st.Lhs[i].(*ast.Ident); ok && id.Name == "_" {
 								continue // discarded
 							}
+							if lo := localObj(info, st.Lhs[i]); lo != nil {
+								if _, isAlias := alias[lo]; isAlias {
+									continue // another name of the fetched value inside the iteration
+								}
+							}
 						}
-						if src[k] != nil && core.Mentions(info, r, src[k]) {
-							handed = true
+						if ast.Unparen(r) == ast.Expr(calls[0]) {
+							continue // the fetch itself (the database is its argument)
+						}
+						for ao, ak := range alias {
+							if ak == k && core.Mentions(info, r, ao) {
+								handed = true
+							}
 						}
 					}
 				case *ast.ValueSpec:
@@ -441,10 +541,22 @@ func (st *state) loader(load, fetch, clear *core.Fn) {
 		return
 	}
 	// e denotes the recorded value k (through conversions and single-assignment copies)
+	// dbOut: the database may be reported through a local derived from the recorded one, assigned
+	// either the recorded database or -1 (`out := rec; if unknown { out = -1 }`, an if/else, the result
+	// of an inlined `recordDb()`); found below, once the body of LoadCheckpoint is the one analysed
+	var dbOut car
 	isRec := func(e ast.Expr, k int) bool {
 		cur := rootExpr(info, e)
 		for i := 0; i < 6; i++ {
-			if cr := carOf(cur); cr.obj != nil && cr == rc[k] {
+			if cr := carOf(cur); cr.obj != nil && k == 4 {
+				// k == 4: the database as it is reported (after the 'unknown run id' adjustment)
+				if dbOut.obj != nil && cr == dbOut || dbOut.obj == nil && cr == rc[3] {
+					return true
+				}
+				if dbOut.obj != nil && cr == rc[3] {
+					return false // the recorded database itself: the adjustment is bypassed
+				}
+			} else if cr.obj != nil && k < 4 && cr == rc[k] {
 				return true
 			}
 			next := rootExpr(info, tt.Resolve(info, body, cur, 1))
@@ -501,11 +613,93 @@ func (st *state) loader(load, fetch, clear *core.Fn) {
 		c.Undecidedf("R3.gate", "LoadCheckpoint/result", fn.Decl.Pos(), "no success return")
 		return
 	}
+	{
+		cands := map[types.Object]bool{}
+		note := func(l, r ast.Expr) {
+			if lc := carOf(l); lc.obj != nil && lc.field == "" && lc != rc[3] && isRec(r, 3) {
+				cands[lc.obj] = true
+			}
+		}
+		core.Inspect(body, func(n ast.Node) bool {
+			switch st := n.(type) {
+			case *ast.AssignStmt:
+				if len(st.Lhs) == len(st.Rhs) && x.LoopOf(st) != ast.Stmt(loop) {
+					for i := range st.Lhs {
+						note(st.Lhs[i], st.Rhs[i])
+					}
+				}
+			case *ast.ValueSpec:
+				if len(st.Names) == len(st.Values) {
+					for i := range st.Names {
+						note(st.Names[i], st.Values[i])
+					}
+				}
+			}
+			return true
+		})
+		var found []types.Object
+		for o := range cands {
+			okDefs := true
+			for _, d := range tt.DefsOf(info, body, o) {
+				if _, isDecl := d.Stmt.(*ast.ValueSpec); isDecl && d.Rhs == nil {
+					continue
+				}
+				if d.Rhs == nil || d.Index != -1 || d.Range != nil {
+					okDefs = false
+					continue
+				}
+				if v, isConst := core.IntConst(info, d.Rhs); isConst && v == -1 {
+					continue
+				}
+				if !isRec(d.Rhs, 3) {
+					okDefs = false
+				}
+			}
+			if okDefs {
+				found = append(found, o)
+			}
+		}
+		if len(found) == 1 {
+			dbOut = car{obj: found[0]}
+		}
+	}
+	// derivedFrom: e is a local some definition of which mentions the carrier of recorded value k
+	derivedFrom := func(e ast.Expr, k int) bool {
+		o := carOf(rootExpr(info, e)).obj
+		if k == 4 {
+			k = 3
+			if dbOut.obj != nil && o == dbOut.obj {
+				return false
+			}
+		}
+		if o == nil || rc[k].obj == nil || o == rc[k].obj {
+			return false
+		}
+		for _, d := range tt.DefsOf(info, body, o) {
+			if d.Rhs != nil && core.Mentions(info, d.Rhs, rc[k].obj) {
+				return true
+			}
+		}
+		return false
+	}
 	for _, r := range rets {
 		res := func(i int) types.Object {
 			return carOf(tt.Resolve(info, body, rootExpr(info, r.Results[i]), 4)).obj
 		}
-		ok := isRec(r.Results[0], 0) && isRec(r.Results[1], 1) && isRec(r.Results[2], 3)
+		ok := isRec(r.Results[0], 0) && isRec(r.Results[1], 1) && isRec(r.Results[2], 4)
+		if !ok {
+			// a result computed from the recorded value in a way that is not followed
+			shaped := false
+			for i, k := range []int{0, 1, 4} {
+				if !isRec(r.Results[i], k) && derivedFrom(r.Results[i], k) {
+					shaped = true
+				}
+			}
+			if shaped {
+				c.Undecidedf("R3.gate", "LoadCheckpoint/result", r.Pos(), "a returned value is computed from the recorded checkpoint in a form that is not analysed (`%s`)", c.Src(r))
+				continue
+			}
+		}
 		if !ok && (res(0) == nil || res(1) == nil || res(2) == nil) {
 			if _, isConst := core.IntConst(info, r.Results[2]); !isConst {
 				c.Undecidedf("R3.gate", "LoadCheckpoint/result", r.Pos(), "cannot relate the returned values `%s` to the recorded checkpoint", c.Src(r))
@@ -692,7 +886,11 @@ func (st *state) loader(load, fetch, clear *core.Fn) {
 				}
 				marks++
 				w := g.Path(cfgq.Query{From: cfgq.Point{B: b.Succs[si]}, Target: isRet, Avoid: func(n ast.Node) bool {
-					return pat.Stmt("_d = -1").Match(info, n, nil) != nil && carOf(n.(*ast.AssignStmt).Lhs[0]) == rc[3]
+					if pat.Stmt("_d = -1").Match(info, n, nil) == nil && pat.Stmt("_d := -1").Match(info, n, nil) == nil {
+						return false
+					}
+					lc := carOf(n.(*ast.AssignStmt).Lhs[0])
+					return lc.obj != nil && (lc == rc[3] || lc == dbOut)
 				}})
 				c.Check("R3.gate", "LoadCheckpoint/unknown-runid", f.Expr.Pos(), w == nil && (st.unknown == "" || lit == st.unknown),
 					fmt.Sprintf("when the newest checkpoint lacks a run id (fetchCheckpoint's marker %q, tested here as %q) the db must be reported as -1 so that every checkpoint is cleared and a full sync follows", st.unknown, lit), w...)
@@ -711,7 +909,12 @@ func (st *state) loader(load, fetch, clear *core.Fn) {
 			same := func(a, b ast.Expr) bool { // the same value, seen through single-assignment copies
 				return pat.Same(info, tt.Resolve(info, body, a, 6), tt.Resolve(info, body, b, 6))
 			}
-			okArgs := len(call.Args) == 6 && carOf(call.Args[2]) == rc[3] && mpExpr != nil && same(call.Args[3], mpExpr)
+			okDb := len(call.Args) == 6 && isRec(call.Args[2], 4)
+			if len(call.Args) == 6 && !okDb && derivedFrom(call.Args[2], 4) {
+				c.Undecidedf("R5.clear", "LoadCheckpoint/call", call.Pos(), "the database handed to ClearCheckpoint is computed from the recorded one in a form that is not analysed")
+				continue
+			}
+			okArgs := okDb && mpExpr != nil && same(call.Args[3], mpExpr)
 			okSrc := false
 			if srcExpr != nil && nameExpr != nil && len(call.Args) == 6 {
 				okSrc = same(call.Args[4], srcExpr) && same(call.Args[5], nameExpr)
@@ -964,6 +1167,7 @@ func (st *state) errors(fn *core.Fn) {
 			TargetExit: cfgq.NormalExit})
 		// the non-nil edge leads to error returns only
 		var w2 []string
+		shaky := false
 		for _, b := range g.CFG.Blocks {
 			for si := range b.Succs {
 				if !b.Live || w2 != nil || !x.Establishes(b, si, func(f cfgq.Fact) bool {
@@ -981,7 +1185,26 @@ func (st *state) errors(fn *core.Fn) {
 					}
 					return k == cfgq.ExitFall
 				}})
+				if w2 != nil {
+					// the error may travel through copies (`err := err1` at the exit of an inlined helper)
+					// before it is tested again: the nil-tracking search follows them
+					fall := g.Path(cfgq.Query{From: cfgq.Point{B: b.Succs[si]}, TargetExit: func(_ *cfg.Block, k cfgq.ExitKind) bool { return k == cfgq.ExitFall }})
+					if fall == nil {
+						w2 = x.Reach(tt.ReachQuery{From: cfgq.Point{B: b}, FromSucc: si, Env: tt.Env{}, Target: func(n ast.Node) bool {
+							r, isRet := n.(*ast.ReturnStmt)
+							return isRet && cfgq.ClassifyReturn(info, body, r) != cfgq.RetErr
+						}})
+						if w2 != nil && x.Shaky {
+							w2 = nil
+							shaky = true
+						}
+					}
+				}
 			}
+		}
+		if shaky && w == nil && w2 == nil {
+			c.Undecidedf("R6.errors", key, call.Pos(), "whether a failed c.Do(%q) ends in an error return depends on a call that is not evaluated", cmd)
+			continue
 		}
 		c.Check("R6.errors", key, call.Pos(), w == nil && w2 == nil, fmt.Sprintf("the error of c.Do(%q) must be tested and a failure must end in an error return: otherwise a failed command is taken for 'no checkpoint' / 'cleared'", cmd), append(w, w2...)...)
 	}
